@@ -12,7 +12,7 @@
  ->  harness/drivers/c02.py    builds real Proof/ProofItem objects from the vectors, runs theory.check_proof (no_gaps
                                True/False with a ProofReport, compute_only) and Theory.checked_extend; seeded generator of
                                larger damaged derivations
- T  spec/C02_CheckerTrace.tla  per event: AcceptedJustified, FinalJustified, NoGapsHonoured, GapsReported, ExtensionProved;
+ T  spec/C02_CheckerTrace.tla  per event: AcceptedJustified, FinalJustified, StepsJustified, NoGapsHonoured, GapsReported, ExtensionProved;
                                divergences: code refuses what RefCheck accepts / I model mispredicts the code
 """
 import copy
@@ -27,8 +27,8 @@ PID = "C02"
 TSPEC = "C02_CheckerTrace"
 FX_CONST = [("idpos", "FxIdPos"), ("negidx", "FxNegIdx"), ("empty", "FxEmpty"), ("extng", "FxExtNg"), ("extcmp", "FxExtCmp")]
 I_INVS = ["ImplRefines", "ExtRefines", "ImplNoGaps", "ImplGapsExact", "ComputeOnlyPlain"]
-SLICES = {"quick": ["f2", "k1", "b1"], "thorough": ["f3b", "f3", "f2x", "k2", "k0"]}
-NRANDOM = {"quick": 2000, "thorough": 40000}
+SLICES = {"quick": ["f2", "k1", "s3", "b1"], "thorough": ["f3b", "f3", "f2x", "k2", "k0", "s4"]}
+NRANDOM = {"quick": 1500, "thorough": 40000}
 REPS_PER_GROUP = 1
 
 
@@ -133,8 +133,8 @@ def run(rep, tier):
     quick = tier == "quick"
     wd = work_dir(PID, "run", clean=True)
     slices = SLICES["quick" if quick else "thorough"]
-    rep.rule = ("TLC builds every proof object of the slices %s of spec/C02_Checker.tla (flat <= 2-3 items, one block of <= 1-2 "
-                "items, anomaly budget per object: identifier != position, citation that is not an earlier visible position, "
+    rep.rule = ("TLC builds every proof object of the slices %s of spec/C02_Checker.tla (flat <= 2-3 items; one block of <= 1-2 "
+                "items; sibling and nested blocks (depth 2, <= 3-4 rule items) with citations into closed blocks; anomaly budget per object: identifier != position, citation that is not an earlier visible position, "
                 "stated sequent weaker/stronger/other, missing theorem, stated empty line) and checks RefCheck's soundness and gap "
                 "counting on each; the algorithm as coded (variant derived from the code) is checked against RefCheck on the same "
                 "space; every object plus %d seeded larger damaged derivations (<= 12 items, nesting <= 3) is run through "
